@@ -33,3 +33,19 @@ Theorem C19_writer_names : forall cps, forallb scalar cps = true ->
   let name := utf8_encode cps in decode_text (name_flag name) name = name.
 Proof. exact writer_name_roundtrip. Qed.
 Print Assumptions C19_writer_names.
+
+(* ---------- as the READER decodes a central record (any bytes, any producer): the raw-name accessor returns the bytes
+   stored in the record, the name is their decoding by the record's language-encoding flag (bit 11 of its own flags
+   word) and so is the entry comment -- whatever the extra field holds (ZIP64, AES records: they never touch the text
+   fields), whatever the name looks like, whatever the other flag bits are. *)
+From ZipV Require Import Base.Outcome Model.Reader Proofs.RawName.
+Theorem C19_reader_decodes_by_flag : forall data pos ao f p',
+  parse_central data pos ao = Ok (f, p') ->
+  exists flags nl el cl rawc,
+    u16_at data (pos + 8) = Ok flags /\ u16_at data (pos + 28) = Ok nl /\ u16_at data (pos + 30) = Ok el /\
+    u16_at data (pos + 32) = Ok cl /\
+    rd_at data (pos + 46) nl = Ok (f_name_raw f) /\ rd_at data (pos + 46 + nl + el) cl = Ok rawc /\
+    f_name f = decode_text (N.testbit flags 11) (f_name_raw f) /\
+    f_comment f = decode_text (N.testbit flags 11) rawc.
+Proof. exact reader_text. Qed.
+Print Assumptions C19_reader_decodes_by_flag.
